@@ -131,6 +131,17 @@ package engine
 //@   call (*WAL).Remove
 //@     requires [remove_after_flush] st == 2 && arg0 == walFileNames
 
+// ================================================================ C13: deleted-series table per retention policy
+//@ prop C13
+// Every retention policy has its own table of dropped series ids; a policy's table is attached only to the indexes
+// of THAT policy (an index reading another policy's table ignores the drops recorded for its own).
+//@ func SetDelMergeSetForEachMergeSet
+//@   ghost same bool = false
+//@   call .RpName
+//@     set same = (ret0 == rp)
+//@   call .SetDeleteMergeSet
+//@     requires [only_indexes_of_this_policy] same
+
 // ================================================================ C02: out-of-order files, newest wins
 //@ prop C02
 // Out-of-order files are read oldest to newest; the record just read comes from the NEWER file and must be the
